@@ -1714,7 +1714,19 @@ def _(it, a, info):
 @model('Duration::subsec_nanos')
 def _(it, a, info):
     ns = dur_ns(deref(it, a[0]))
-    return z3.simplify(z3.If(z3.ULT(ns, bv(NS)), z3.Extract(31, 0, ns), z3.Extract(31, 0, z3.URem(ns, bv(NS)))))
+    c = conc(ns)
+    if c is not None:
+        return bv(c % NS, 32)
+    # ns < 1e9: the value itself; otherwise the remainder, defined by the division lemma on fresh q, r (no divider circuit)
+    q = it.ctx.fresh_bv('ns_q')
+    r = it.ctx.fresh_bv('ns_r')
+    lemma = z3.Implies(z3.UGE(ns, bv(NS)), z3.And(z3.ULT(r, bv(NS)), z3.ULE(q, bv(1 << 34)), q * bv(NS) + r == ns))
+    w = it.ctx.data.get('world')
+    if w is not None and hasattr(w, 'assume') and not getattr(w, 'seq', False):
+        w.assume(lemma)
+    else:
+        it.ctx.add(lemma)
+    return z3.simplify(z3.If(z3.ULT(ns, bv(NS)), z3.Extract(31, 0, ns), z3.Extract(31, 0, r)))
 
 
 @model('Duration::as_millis')
